@@ -8,7 +8,25 @@ use rayon::prelude::*;
 use crate::model::{Content, State};
 
 pub fn write_file(key: &String, content: &Content, to: &PathBuf) -> std::io::Result<()> {
-    fs::write(to.clone().join(format!("{}.md", key)), content.as_str())
+    let path = to.clone().join(format!("{}.md", key));
+
+    // Never truncate the note itself: write a sibling temp file (not `*.md`, so it is
+    // never loaded as a note) and rename it over the note once it is complete. A write
+    // that fails or is interrupted leaves the old text in place.
+    let tmp = to.clone().join(format!("{}.md.tmp", key));
+
+    let result = fs::write(&tmp, content.as_str())
+        .and_then(|_| match fs::metadata(&path) {
+            Ok(meta) => fs::set_permissions(&tmp, meta.permissions()),
+            Err(_) => Ok(()),
+        })
+        .and_then(|_| fs::rename(&tmp, &path));
+
+    if result.is_err() {
+        let _ = fs::remove_file(&tmp);
+    }
+
+    result
 }
 
 pub fn new_for_path(base_path: &PathBuf) -> State {
